@@ -3,7 +3,7 @@
    bits, AUDIT_GET/SET, the NLM_F flags), written by hand from the UAPI headers. *)
 From Coq Require Import List NArith ZArith Bool.
 Import ListNotations.
-Require Import Mach AuditConsts MsgTypes AuditClient Uapi ChkClient StatusProofs.
+Require Import Mach AuditConsts MsgTypes AuditClient Uapi ChkClient StatusProofs ClientProofs ClientWalkProofs.
 Open Scope N_scope.
 
 (* the compiled struct has the kernel's size, field order and byte order (generated
@@ -68,7 +68,19 @@ Theorem C16_from_wire : forall buf,
   status_from_wire buf = if (N.of_nat (length buf) <? UAPI_MIN_AUDIT_STATUS) then None else Some (uapi_read_status buf).
 Proof. exact from_wire_spec. Qed.
 
+(* the C16 clause of the judge (written from the UAPI layout, never calling the model) accepts what the model does: a Set*
+   for every setter, value, wait mode, state, script and send fault; a GetStatus whenever its request was sent - the wire
+   it sends, the status it hands back, the error class for a short reply *)
+Theorem C16_judge_accepts_setters : forall s w k v wait,
+  let '(_, _, (r, ws, _)) := cstep s w (OSet k v wait) in chk_c16_call (OSet k v wait) (next_seq s) (rscript w) r ws = true.
+Proof. exact chk_c16_accepts_set. Qed.
+Theorem C16_judge_accepts_get_status : forall s w, no_fault w ->
+  let '(_, _, (r, ws, _)) := cstep s w OGetStatus in chk_c16_call OGetStatus (next_seq s) (rscript w) r ws = true.
+Proof. exact chk_c16_accepts_get_status. Qed.
+
 Print Assumptions C16_get_status_result.
+Print Assumptions C16_judge_accepts_setters.
+Print Assumptions C16_judge_accepts_get_status.
 Print Assumptions C16_get_status_request.
 Print Assumptions C16_layout.
 Print Assumptions C16_constants.
